@@ -1859,9 +1859,17 @@ def overlap_checks(ctx, corr: Corr, batch: "Batch") -> list:
     for sc, res in results:
         k, after = sc["hold"]
         if sc["observe_only"]:
-            corr.count("overlap, not judged: the save's last file operation queued when the session was left (the cancelled save "
-                       "never closes its file; CPython flushes it when the object is collected) - file "
-                       + ("loads to the registry held" if not res["why"] else "does NOT load to the registry held"))
+            # Judged, but a violation at exactly this position is the recorded known finding `cancelled-save-unclosed-file`
+            # (known-findings.txt): a genuine race of the unchanged library between two executor threads, whose outcome
+            # differs from run to run (it shows in roughly one run in ten on a loaded machine).
+            corr.count("overlap, the save's last file operation queued when the session was left (the cancelled save never closes "
+                       "its file; CPython flushes it when the object is collected) - file "
+                       + ("loads to the registry held" if not res["why"] else "does NOT load to the registry held (known finding)"))
+            if res["why"]:
+                p0 = res["point"]
+                corr.violate(res["why"], {"class": "cancelled-save-unclosed-file", "scenario": sc["label"], "steps": res["trace"],
+                                          "file": (p0.get("bytes", b"") if p0 else b"")[:3000].decode("utf-8", "replace"),
+                                          "file_operations_of_the_held_save": res["ops_of_held_save"]})
             continue
         corr.count("overlap scenarios (session left while a scheduled save is in flight)")
         if not res["reached"]:
